@@ -314,6 +314,64 @@ def _number_rows(fn):
     return fn
 
 
+def _split_zero_amp(fn):
+    """the shape   if amp == 0: V = <e0>  else: V = <e>     (or `amp != 0` with the branches swapped, or the
+    conditional expression  V = <e> if amp != 0 else <e0>)  becomes   V = <e>;  __amp0 = <e0>;  __amp0flag = 1.
+    The class `R` has no decidable comparison, so the two branches are regenerated as two definitions (`dmds` for
+    amp != 0, `dmds0` for amp == 0) and the property file puts them together.  Without such a shape:
+    __amp0flag = 0 and `dmds0` is UNTRANSLATABLE (hand fallback, about which nothing is claimed for the code)."""
+    found = [0]
+
+    def zero_test(t):
+        if isinstance(t, ast.Compare) and _is_name(t.left, 'amp') and len(t.ops) == 1 \
+                and isinstance(t.comparators[0], ast.Constant) and t.comparators[0].value in (0, 0.0) \
+                and not isinstance(t.comparators[0].value, bool):
+            if isinstance(t.ops[0], ast.Eq):
+                return 'eq'
+            if isinstance(t.ops[0], ast.NotEq):
+                return 'ne'
+        return None
+
+    def single_assign(stmts):
+        if len(stmts) == 1 and isinstance(stmts[0], ast.Assign) and len(stmts[0].targets) == 1 \
+                and isinstance(stmts[0].targets[0], ast.Name):
+            return stmts[0].targets[0].id, stmts[0].value
+        return None
+
+    def emit(var, nonzero, zero):
+        found[0] += 1
+        return [ast.Assign(targets=[ast.Name(id=var, ctx=ast.Store())], value=nonzero),
+                ast.Assign(targets=[ast.Name(id='__amp0', ctx=ast.Store())], value=zero),
+                ast.Assign(targets=[ast.Name(id='__amp0flag', ctx=ast.Store())], value=ast.Constant(value=1))]
+
+    def walk(stmts):
+        out = []
+        for st in stmts:
+            if isinstance(st, ast.If) and zero_test(st.test):
+                a, b = single_assign(st.body), single_assign(st.orelse)
+                if a and b and a[0] == b[0]:
+                    z, nz = (a[1], b[1]) if zero_test(st.test) == 'eq' else (b[1], a[1])
+                    out.extend(emit(a[0], nz, z))
+                    continue
+            if isinstance(st, ast.Assign) and len(st.targets) == 1 and isinstance(st.targets[0], ast.Name) \
+                    and isinstance(st.value, ast.IfExp) and zero_test(st.value.test):
+                z, nz = (st.value.body, st.value.orelse) if zero_test(st.value.test) == 'eq' \
+                    else (st.value.orelse, st.value.body)
+                out.extend(emit(st.targets[0].id, nz, z))
+                continue
+            for attr in ('body', 'orelse'):
+                if hasattr(st, attr) and isinstance(getattr(st, attr), list):
+                    setattr(st, attr, walk(getattr(st, attr)))
+            out.append(st)
+        return out
+    fn.body = walk(fn.body)
+    if found[0] == 0:
+        fn.body.insert(0, ast.Assign(targets=[ast.Name(id='__amp0flag', ctx=ast.Store())], value=ast.Constant(value=0)))
+    elif found[0] > 1:
+        raise py2lean.Untranslatable("jacobian: more than one amp == 0 special case")
+    return fn
+
+
 def _normalise(fn, module, rows=False):
     import copy
     fn = copy.deepcopy(fn)
@@ -326,6 +384,7 @@ def _normalise(fn, module, rows=False):
     fn.body = _norm_block(fn.body, module, {})
     fn = _Lookups().visit(fn)          # look-ups brought in by inlined helpers
     if rows:
+        fn = _split_zero_amp(fn)
         fn = _number_rows(fn)
     return ast.fix_missing_locations(fn)
 
@@ -672,6 +731,13 @@ TARGETS = [
          fallback={name: _fb(name)},
          all_params=_P)
     for k, name in enumerate(['dmds', 'dmdxo', 'dmdyo', 'dmdsx', 'dmdsy', 'dmdtheta'])
+] + [
+    # the amp == 0 special case of the amplitude derivative (see `_split_zero_amp`): its expression and whether the
+    # source has it at all (1 / 0, as a real literal)
+    dict(file='AegeanTools/fitting.py', func='jacobian', mode='real', params=_PARAMS,
+         subst={f"pars[prefix + '{p}'].value": p for p in _HPARS}, calls={'elliptical_gaussian': ('gauss', 8)},
+         outputs=[(var, name)], fallback={name: _fb(name)}, all_params=_P)
+    for var, name in [('__amp0', 'dmds0'), ('__amp0flag', 'dmdsZero')]
 ] + [
     dict(file=_S, func='lmj', mode='int', params={'k': 'N'},
          outputs=[('op', 'lmjOp'), ('n', 'lmjLen'), ('src', 'lmjSrc')],
